@@ -8,6 +8,7 @@
 #include <fcntl.h>
 #include <time.h>
 #include <sys/personality.h>
+#include <sys/prctl.h>
 #include <signal.h>
 #include "h.h"
 
@@ -287,6 +288,9 @@ int main(int argc, char **argv) {
 		}
 		setenv("LCBSIM_NOASLR", "1", 1);
 	}
+	/* never outlive the driver (a driver killed by a timeout once left workers spinning in an endless loop of a
+	 * changed library for hours, starving later runs) */
+	prctl(PR_SET_PDEATHSIG, SIGKILL);
 	setvbuf(stdout, NULL, _IOLBF, 0);
 	signal(SIGPIPE, SIG_IGN); /* the pool blocks it in its threads; fibers share one OS thread */
 	sim_install_crash_handler();
